@@ -7,15 +7,15 @@ import Witverif.Generated.CppIdent
 /-
 Model of the identifier functions of the Rust and C++ backends (C09, C31).
 
-  crates/rust/src/lib.rs   `to_rust_ident`        = `escapeIdent Generated.RustIdent.escapeTable`
+  crates/rust/src/lib.rs   `to_rust_ident`        = `escapeBy Generated.RustIdent.matchOnSnake Generated.RustIdent.escapeTable`
                            `to_upper_camel_case`  = `toUpperCamelRust`
-  crates/c/src/lib.rs      `to_c_ident`           = `escapeIdent Generated.CppIdent.escapeTable`
+  crates/c/src/lib.rs      `to_c_ident`           = `escapeBy Generated.CppIdent.matchOnSnake Generated.CppIdent.escapeTable`
                            (crates/cpp/src/lib.rs imports exactly this function)
   heck 0.5                 `to_snake_case` (Heck.snake), `to_upper_camel_case`/`to_pascal_case`
                            (`upperCamel`), `to_shouty_snake_case` (`shouty`)
   crates/rust/src/bindgen.rs  temporaries `<base>{tmp}` / `<base>{tmp}_{i}` and fixed locals
                            (inventory in `Generated.RustIdent.tempBases` / `fixedLocals`)
-  crates/rust/src/lib.rs   module path of an interface: [to_rust_ident ns, name_package_module pkg, to_rust_ident iface]
+  crates/rust/src/lib.rs   module path of an interface: [to_rust_ident ns, to_rust_ident (name_package_module pkg), to_rust_ident iface]
   crates/cpp/src/lib.rs    `namespace(..)`: [to_c_ident ns, to_c_ident (name_package_module pkg), to_c_ident iface]
 
 The escape tables are *generated* from the source text on every run (tools/gen_ident_tables.py), so
@@ -36,8 +36,20 @@ def escapeIdent (t : List (List Char × List Char)) (n : List Char) : List Char 
   | some v => v
   | none => snake n
 
-def toRustIdent : List Char → List Char := escapeIdent Witverif.Generated.RustIdent.escapeTable
-def toCIdent : List Char → List Char := escapeIdent Witverif.Generated.CppIdent.escapeTable
+/-- `match name.to_snake_case().as_str() { "k" => "v".into(), …, s => s.into() }` -/
+def escapeIdentS (t : List (List Char × List Char)) (n : List Char) : List Char :=
+  match lookupT t (snake n) with
+  | some v => v
+  | none => snake n
+
+/-- which of the two shapes the source has is extracted with the table (`matchOnSnake`) -/
+def escapeBy (onSnake : Bool) (t : List (List Char × List Char)) (n : List Char) : List Char :=
+  if onSnake then escapeIdentS t n else escapeIdent t n
+
+def toRustIdent : List Char → List Char :=
+  escapeBy Witverif.Generated.RustIdent.matchOnSnake Witverif.Generated.RustIdent.escapeTable
+def toCIdent : List Char → List Char :=
+  escapeBy Witverif.Generated.CppIdent.matchOnSnake Witverif.Generated.CppIdent.escapeTable
 
 /-- the segments heck finds, before any case conversion -/
 def rawSegments (s : List Char) : List (List Char) :=
@@ -97,7 +109,7 @@ def clashesWithCppLocal (x : List Char) : Bool :=
 open Witverif.Text.PkgPath in
 /-- Rust: `crate::<ns>::<pkg module>::<iface>` -/
 def rustModulePath (pkgs : List Pkg) (p : Pkg) (iface : List Char) : List (List Char) :=
-  [toRustIdent p.ns, namePackageModule pkgs p, toRustIdent iface]
+  [toRustIdent p.ns, toRustIdent (namePackageModule pkgs p), toRustIdent iface]
 
 open Witverif.Text.PkgPath in
 /-- C++: `<ns>::<pkg module>::<iface>` (`namespace(..)` in crates/cpp/src/lib.rs) -/
